@@ -598,7 +598,7 @@ bool read_number(const char *in, Option<T> &out)
    }
    bool invert = false;
 
-   if (strchr("-", in[0]))
+   if (in[0] == '-')
    {
       invert = true;
       ++in;
@@ -711,7 +711,8 @@ bool Option<bool>::read(const char *in)
    }
    bool invert = false;
 
-   if (strchr("~!-", in[0]))
+   if (  in[0] != '\0'                   // strchr() also finds the terminator
+      && strchr("~!-", in[0]))
    {
       invert = true;
       ++in;
